@@ -1,6 +1,6 @@
-from . import evaluate, numeric, structure, reduce, symbolic
+from . import evaluate, numeric, structure, reduce, symbolic, wrappers
 
-MODULES = [evaluate, numeric, structure, reduce, symbolic]
+MODULES = [evaluate, numeric, structure, reduce, symbolic, wrappers]
 
 
 def all_specs(prog, tier):
